@@ -129,6 +129,7 @@ def run(pid, tier, seed):
             if pi == 0:
                 chk.sample({"program": name, "events": [sexp.dumps(e) for e in er.events[:6]], "log": [sexp.dumps(t) for t in ilog[:3]]})
         twin_modules(chk, pd)
+        untypable_values(chk, pd, seed)
     finally:
         pd.close()
         drv.close()
@@ -139,6 +140,47 @@ TWIN_SRC = ("import functools\n\n\ndef plain(x):\n    return x\n\n\ndef deco(f):
             "    return wrapper\n\n\n@deco\ndef wrapped(x):\n    return [x]\n\n\ndef gen(x):\n    yield x\n\n\n"
             "class K:\n    def meth(self, x):\n        return x\n\n    @classmethod\n    def cmeth(cls, x):\n        return x\n\n"
             "    @staticmethod\n    def smeth(x):\n        return x\n")
+
+
+DEEP_SRC = (
+    "def deep(n):\n    d = [1]\n    for _ in range(n):\n        d = [d]\n    return d\n\n\n"
+    "def deep_ret(n):\n    return deep(n)\n\n\n"
+    "def deep_arg(d):\n    return 1\n\n\n"
+    "def deep_gen(n):\n    yield 1\n    yield deep(n)\n    yield 2\n    return 3\n\n\n"
+    "def ok(x):\n    return [x]\n\n\n"
+    "def run():\n    out = [len(deep_ret(20000)), deep_arg(deep(20000)), [type(v).__name__ for v in deep_gen(20000)], ok(1), ok('s')]\n    return repr(out)\n")
+
+
+def untypable_values(chk, pd, seed):
+    """values no type can be inferred for (lists nested deeper than the interpreter's recursion limit), returned, passed and yielded:
+    the failure stays inside the tracer (C03), the calls around are logged as ever, and afterwards the tracer keeps no per-call
+    state - a call that cannot be described is not described, and not remembered either (fix 046cc64)"""
+    import sys as _sys
+    from monkeytype.tracing import trace_calls
+    from .. import tracerun
+    mod, path = pd.load("c02deep_%d" % (seed % 1000), DEEP_SRC)
+    want = mod.run()
+    for k in (0, 3):
+        chk.evaluations += 1
+        logger = tracerun.ListLogger()
+        case = {"workload": "values nested 20000 deep: returned, passed, yielded", "k": k}
+        try:
+            with trace_calls(logger, k, lambda code: code.co_filename == path):
+                tracer = _sys.getprofile()
+                got = mod.run()
+        except BaseException as e:
+            chk.fail("residue", dict(case, detail="the failure to type a value reached the program", error=repr(e)[:200]))
+            continue
+        left = len(tracer.traces) + len(getattr(tracer, "thrown_into", ()))
+        names = [t.func.__name__ for t in logger.traces]
+        if got != want:
+            chk.fail("residue", dict(case, detail="the program computed something else under tracing", traced=got[:200], untraced=want[:200]))
+        if left:
+            chk.fail("residue", dict(case, detail="%d per-call entries left in the tracer after calls whose values could not be typed" % left,
+                                     functions=[t.func.__name__ for t in tracer.traces.values()]))
+        if names.count("ok") != 2 or names.count("run") != 1:
+            chk.fail("count", dict(case, detail="the calls around the untypable ones were not logged once each", logged=names))
+        chk.nontriv("untypable|%d" % k)
 
 
 def twin_modules(chk, pd):
